@@ -514,8 +514,9 @@ func (s *Store) pushFile(target string, expected ocispec.Descriptor, content io.
 		return fmt.Errorf("failed to ensure directories of the target path: %w", err)
 	}
 
-	if !s.AllowPathTraversalOnWrite {
+	if !s.AllowPathTraversalOnWrite && filepath.Clean(target) != s.workingDir {
 		// replace an existing symbolic link instead of writing through it
+		// (but never the working directory itself, which may be a link)
 		if err := removeSymlink(target); err != nil {
 			return fmt.Errorf("failed to replace symbolic link %s: %w", target, err)
 		}
